@@ -1,5 +1,5 @@
 @unit cw4stake
-@shim core.rs cw_utils.rs cw2.rs std_adapters.rs snapshot.rs cw_controllers.rs range.rs snapshot_range.rs
+@shim core.rs cw_utils.rs std_more.rs cw2.rs std_adapters.rs snapshot.rs cw_controllers.rs range.rs snapshot_range.rs
 @properties C09 C10 C14 C20
 
 // ===================================================================== data and state
@@ -581,4 +581,26 @@ pub open spec fn str_cursor(c: Option<String>) -> Option<Seq<u8>> { match c { So
     ensures res.addr@ == __p2_0.0@ && res.weight == __p2_0.1
 @prefix
     broadcast use string_conv;
+@end
+
+// ===================================================================== the query entry point routes every message to its query function
+@enum contracts/cw4-stake/src/msg.rs QueryMsg
+impl JsonT for MemberResponse { uninterp spec fn json(self) -> Seq<u8>; uninterp spec fn unjson(b: Seq<u8>) -> Option<Self>; }
+impl JsonT for MemberListResponse { uninterp spec fn json(self) -> Seq<u8>; uninterp spec fn unjson(b: Seq<u8>) -> Option<Self>; }
+impl JsonT for TotalWeightResponse { uninterp spec fn json(self) -> Seq<u8>; uninterp spec fn unjson(b: Seq<u8>) -> Option<Self>; }
+impl JsonT for AdminResponse { uninterp spec fn json(self) -> Seq<u8>; uninterp spec fn unjson(b: Seq<u8>) -> Option<Self>; }
+impl JsonT for HooksResponse { uninterp spec fn json(self) -> Seq<u8>; uninterp spec fn unjson(b: Seq<u8>) -> Option<Self>; }
+impl JsonT for ClaimsResponse { uninterp spec fn json(self) -> Seq<u8>; uninterp spec fn unjson(b: Seq<u8>) -> Option<Self>; }
+impl JsonT for StakedResponse { uninterp spec fn json(self) -> Seq<u8>; uninterp spec fn unjson(b: Seq<u8>) -> Option<Self>; }
+@fn contracts/cw4-stake/src/contract.rs query
+@ensures C09.query_routes C10 C14 C20
+    r is Ok ==> match msg {
+        QueryMsg::Member { addr, at_height } => exists|x: MemberResponse| r->Ok_0@ == x.json() && call_ensures(query_member, (deps, addr, at_height), Ok::<MemberResponse, StdError>(x)),
+        QueryMsg::TotalWeight {} => exists|x: TotalWeightResponse| r->Ok_0@ == x.json() && call_ensures(query_total_weight, (deps,), Ok::<TotalWeightResponse, StdError>(x)),
+        QueryMsg::ListMembers { start_after, limit } => exists|x: MemberListResponse| r->Ok_0@ == x.json() && call_ensures(list_members, (deps, start_after, limit), Ok::<MemberListResponse, StdError>(x)),
+        QueryMsg::Staked { address } => exists|x: StakedResponse| r->Ok_0@ == x.json() && call_ensures(query_staked, (deps, address), Ok::<StakedResponse, StdError>(x)),
+        QueryMsg::Claims { address } => exists|x: ClaimsResponse| r->Ok_0@ == x.json() && x.claims@ == claims_of(deps.storage.view(), "claims"@, address@),
+        QueryMsg::Admin {} => exists|x: AdminResponse| r->Ok_0@ == x.json() && admin_answer(deps.storage.view(), "admin"@, x),
+        QueryMsg::Hooks {} => exists|x: HooksResponse| r->Ok_0@ == x.json() && hooks_answer(deps.storage.view(), "cw4-hooks"@, x),
+    }
 @end
